@@ -18,7 +18,7 @@ import pandas as pd
 
 from .. import config, lib, record, runner, tlc
 
-NCALLS = 24
+NCALLS = 25
 NAMES = {1: 'jaccard_join(S)', 2: 'jaccard_join(B,allow_missing)', 3: 'cosine_join(B,>)', 4: 'dice_join(B)',
          5: 'overlap_join(B)', 6: 'overlap_coefficient_join(B)', 7: 'edit_distance_join(default tokenizer)',
          8: 'edit_distance_join(Q set-mode qgram)', 9: 'jaccard_join(B) rejected: threshold 1.5',
@@ -30,7 +30,7 @@ NAMES = {1: 'jaccard_join(S)', 2: 'jaccard_join(B,allow_missing)', 3: 'cosine_jo
          19: 'jaccard_join(S) with threshold 0.9', 20: 'PrefixFilter(qgram q=2, EDIT_DISTANCE, 1).filter_tables',
          21: 'PrefixFilter(qgram q=3, EDIT_DISTANCE, 1).filter_tables',
          22: 'overlap_join(Q set-mode qgram)', 23: 'OverlapFilter(S,1).filter_candset on s',
-         24: 'OverlapFilter(S,1).filter_candset on s2'}
+         24: 'OverlapFilter(S,1).filter_candset on s2', 25: 'jaccard_join(Q set-mode qgram)'}
 
 
 def fresh_objects():
@@ -39,13 +39,14 @@ def fresh_objects():
     # row 6 / 14: strings of more than 48 characters with repeated words and repeated 2-grams (set and bag
     # tokenisations differ); s2: a second string column for calls on another attribute of the same objects
     long_l, long_r = ('ab ab cd ' * 6).strip(), ('ab cd cd ' * 6).strip()
-    L = pd.DataFrame({'id': pd.Series([1, 2, 3, 4, 5, 6], dtype='int64'),
-                      's': pd.Series(['a b c', 'b c', None, '', 'b', long_l], dtype=object),
-                      'n': pd.Series([10, 20, 30, 40, 50, 60], dtype='int64'),
-                      's2': pd.Series(['b d', 'a', 'x y', None, 'a b', long_r], dtype=object)})
-    R = pd.DataFrame({'id': pd.Series([11, 12, 13, 14], dtype='int64'),
-                      's': pd.Series(['a b', '', 'b c d', long_r], dtype=object),
-                      's2': pd.Series(['x', 'a b', 'd', 'ab ab'], dtype=object)})
+    # row 7 / 15: the same SET of 2-grams but bags of different size (banana / bananana)
+    L = pd.DataFrame({'id': pd.Series([1, 2, 3, 4, 5, 6, 7], dtype='int64'),
+                      's': pd.Series(['a b c', 'b c', None, '', 'b', long_l, 'banana'], dtype=object),
+                      'n': pd.Series([10, 20, 30, 40, 50, 60, 70], dtype='int64'),
+                      's2': pd.Series(['b d', 'a', 'x y', None, 'a b', long_r, 'b'], dtype=object)})
+    R = pd.DataFrame({'id': pd.Series([11, 12, 13, 14, 15], dtype='int64'),
+                      's': pd.Series(['a b', '', 'b c d', long_r, 'bananana'], dtype=object),
+                      's2': pd.Series(['x', 'a b', 'd', 'ab ab', 'b d'], dtype=object)})
     C = pd.DataFrame({'_id': [0, 1, 2, 3, 4, 5, 6], 'l_id': [1, 1, 2, 4, 3, 6, 6], 'r_id': [11, 13, 13, 12, 11, 14, 11]})
     toks = {'S': sm.WhitespaceTokenizer(return_set=True), 'B': sm.WhitespaceTokenizer(return_set=False),
             'D': inspect.signature(ssj.edit_distance_join).parameters['tokenizer'].default,
@@ -107,6 +108,8 @@ def do_call(c, ssj, L, R, C, toks):
         return ssj.OverlapFilter(toks['S'], 1).filter_candset(C, 'l_id', 'r_id', L, R, 'id', 'id', 's', 's', **kw)
     if c == 24:
         return ssj.OverlapFilter(toks['S'], 1).filter_candset(C, 'l_id', 'r_id', L, R, 'id', 'id', 's2', 's2', **kw)
+    if c == 25:
+        return ssj.jaccard_join(L, R, *k, toks['Q'], 0.8, **kw)
     raise ValueError(c)
 
 
